@@ -33,6 +33,19 @@ pub fn crash_oracles(report: &mut Report, case: &Value, sc: &Scenario, arch: &st
             }
         }
     }
+    // … also when asked for "the latest complete version" (unless the crash came after the tail write)
+    if let Some(newest) = complete_bands(&sc.pre_state).into_iter().max() {
+        if let Some(snap) = sc.run.snapshots.get(&newest) {
+            if complete_bands(post).into_iter().max() == Some(newest) {
+                let (rr, robs) = restore_observe(arch, sc.run.work.path(), &Sel::Closed, "c03l");
+                if !rr.result.starts_with("result ok") || !rr.events.is_empty() {
+                    report.oracle_fail("crash:latest-complete-unrestorable", case.clone(), "the latest complete version can no longer be selected/restored after the interrupted backup", json!({"expected": band_name(newest), "result": trunc(&rr.result), "events": rr.events.iter().take(3).collect::<Vec<_>>()}));
+                } else if let Some(d) = crate::c01::tree_diff(snap, &robs) {
+                    report.oracle_fail("crash:latest-complete-differs", case.clone(), "the latest complete version restores differently after the interrupted backup", json!({"expected": band_name(newest), "diff": d}));
+                }
+            }
+        }
+    }
     if let Some(why) = extends(&sc.pre_state, post) {
         report.oracle_fail("crash:existing-file-touched", case.clone(), "the interrupted backup altered or removed an existing file", json!(why));
     }
